@@ -277,18 +277,20 @@ class PoolSeeding(Lemma):
     configured -- so that no two workers start from the configured seed (seed-semantics lemma: the flag selects the
     process- and time-dependent value)."""
     prop = "C08"
-    cases = ("standard", "multilevel")
+    cases = ("standard", "standard, default number of processes (None)", "multilevel", "multilevel, default number of processes (None)")
 
     def __init__(self):
         self.name = "property:worker-pool-seeding"
 
-    def prove(self, vc, which):
-        nm = f"{self.name}[{which}]"
+    def prove(self, vc, which_):
+        nm = f"{self.name}[{which_}]"
+        which = which_.split(",")[0]
+        nproc = None if "None" in which_ else 2
         it = vc.interp
         log = []
         if which == "standard":
             eng, product = standard_engine(vc, log, mc_paths=3)
-            eng.fields["configuration"].fields["nb_of_processes"] = 2
+            eng.fields["configuration"].fields["nb_of_processes"] = nproc
         it.opaque_hooks = dict(getattr(it, "opaque_hooks", None) or {})
         it.opaque_hooks["pathos.multiprocessing.Pool"] = lambda it_, *a, **k: FakePool(it_, log, *a, **k)
         it.opaque_hooks["tqdm.tqdm"] = lambda it_, x, *a, **k: x
@@ -302,7 +304,7 @@ class PoolSeeding(Lemma):
                 it.hooks[fq] = lambda it_, f, b: None
             CP = "rpylib.process.coupling.couplingmarkovchain:CouplingMarkovChain"
             it.hooks[CP + ".simulate_one_path_with_coupling"] = lambda it_, f, b: ev(("draw", "coupled")) or "p"
-            cfg = vc.obj(CF + "ConfigurationMultiLevel", nb_of_processes=2, control_variates=vc.obj("rpylib.product.product:NoControlVariates"), seed=vc.int("seed"))
+            cfg = vc.obj(CF + "ConfigurationMultiLevel", nb_of_processes=nproc, control_variates=vc.obj("rpylib.product.product:NoControlVariates"), seed=vc.int("seed"))
             pm = vc.obj("rpylib.montecarlo.path:MLMCPath")
             stats = vc.obj("rpylib.montecarlo.statistic.statistic:MLMCStatistics", mc_statistics=[None, None])
             eng = vc.obj(ME + "Engine", configuration=cfg, path_managers=[pm, pm])
